@@ -55,6 +55,10 @@ type C13Scenario struct {
 	// refuses (554) after accepting MAIL and RCPT: their call fails, their clean-up stays on
 	// their own connection, nobody else notices.
 	RefuseData []int `json:"refuseData,omitempty"`
+	// RefuseEOD lists senders (any, also those on the shared connection) whose message the
+	// server refuses after the content (554 to the end-of-data): their call fails, nothing of
+	// theirs is committed, and the connection stays usable for everybody else.
+	RefuseEOD []int `json:"refuseEOD,omitempty"`
 	// Fallback: the Client has a fallback port (WithTLSPortPolicy(TLSOpportunistic): 587, then
 	// 25) and the primary port cannot be reached: every dial goes through the fallback.
 	Fallback bool `json:"fallback,omitempty"`
@@ -118,6 +122,11 @@ func (p *c13) Gen(seed uint64, i int, tier string) (any, bool) {
 		}
 	}
 	sc.Fallback = r.Chance(1, 6)
+	if r.Chance(1, 5) {
+		for k := 0; k < 1+r.Intn(2); k++ {
+			sc.RefuseEOD = append(sc.RefuseEOD, r.Intn(sc.N))
+		}
+	}
 	return sc, true
 }
 
@@ -265,6 +274,9 @@ func (p *c13) Exec(t *testing.T, scAny any) Outcome {
 			if private(i) {
 				failing[i] = true
 			}
+		}
+		for _, i := range sc.RefuseEOD {
+			scfg.Rules = append(scfg.Rules, refsmtpd.Rule{Verb: "EOD", FromContains: fmt.Sprintf("sender-g%d@", i), Action: refsmtpd.Action{Code: 554, Text: "message refused by content filter"}})
 		}
 		for _, i := range sc.RefuseData {
 			if private(i) {
@@ -417,6 +429,12 @@ func (p *c13) Exec(t *testing.T, scAny any) Outcome {
 			out.stat("fault.fired.failing_body_writer", 1)
 		}
 		refused[i] = true // same expectation: the call fails and nothing is committed
+	}
+	for _, i := range sc.RefuseEOD {
+		if i < sc.N && !refused[i] {
+			out.stat("fault.fired.content_refused", 1)
+			refused[i] = true
+		}
 	}
 	for _, i := range sc.RefuseData {
 		if !private(i) {
